@@ -38,6 +38,16 @@ def all_cases(tier):
                         for a in ((0, 0.2, math.sqrt(5.0)) if (nl == "leaky_relu" or (mode == "fan_in" and dt == "float32")) else (0,)):
                             out.append({"init": "kaiming_uniform_", "shape": list(s), "dtype": dt, "rg": rg, "args": {"a": a, "mode": mode, "nonlinearity": nl}})
                             out.append({"init": "kaiming_normal_", "shape": list(s), "dtype": dt, "rg": rg, "args": {"a": a, "mode": mode, "nonlinearity": nl}})
+    # bounds / gains handed over as NumPy float64 scalars (np.sqrt(...) results): the tensor must keep its dtype
+    for s in [(3,), (3, 2), (2, 3, 2)]:
+        for dt in ("float32", "float64"):
+            out.append({"init": "uniform_", "shape": list(s), "dtype": dt, "rg": True, "args": {"a": -0.5, "b": 0.75}, "np_scalars": True})
+            out.append({"init": "normal_", "shape": list(s), "dtype": dt, "rg": True, "args": {"mean": 0.5, "std": 0.25}, "np_scalars": True})
+            out.append({"init": "constant_", "shape": list(s), "dtype": dt, "rg": True, "args": {"val": 1.5}, "np_scalars": True})
+            if len(s) >= 2:
+                out.append({"init": "xavier_uniform_", "shape": list(s), "dtype": dt, "rg": True, "args": {"gain": math.sqrt(2.0)}, "np_scalars": True})
+                out.append({"init": "xavier_normal_", "shape": list(s), "dtype": dt, "rg": True, "args": {"gain": math.sqrt(2.0)}, "np_scalars": True})
+                out.append({"init": "kaiming_uniform_", "shape": list(s), "dtype": dt, "rg": True, "args": {"a": 0.2}, "np_scalars": True})
     # defaults
     for init in ("uniform_", "normal_", "xavier_uniform_", "xavier_normal_", "kaiming_uniform_", "kaiming_normal_"):
         out.append({"init": init, "shape": [3, 2], "dtype": "float32", "rg": True, "args": {}})
@@ -78,6 +88,8 @@ def expected(case):
 def judge(case):
     sg = harness.load(); nn = sg.nn
     init, A, s = case["init"], case["args"], tuple(case["shape"])
+    if case.get("np_scalars"):
+        A = {k: (np.float64(v) if isinstance(v, float) else v) for k, v in A.items()}
     dt = np.dtype(case["dtype"]).type
     viol = []
     def v(sym, detail): viol.append({"kind": f"{init}:{sym}", "detail": detail})
